@@ -37,7 +37,9 @@ def _match_one(pat, val):
 def match(known, prop, violation):
     sig = violation.get('sig', {})
     for f in known:
-        if f.get('status') != 'open' or f.get('property') != prop:
+        props = f.get('property')
+        props = props if isinstance(props, list) else [props]
+        if f.get('status') != 'open' or prop not in props:
             continue
         want = f.get('signature', {})
         if all(k in sig and _match_one(p, sig[k]) for k, p in want.items()):
